@@ -2,7 +2,7 @@
 (clause: the expansion cache keys are distinguishable)."""
 import re
 
-from . import core
+from . import core, symex
 from . import tmplutil as tu
 from .report import Report
 
@@ -62,6 +62,8 @@ def run(tier):
     if variants:
         rep.ob("display-arms.cover-all-variants", "variants=%d arms=%d" % (len(variants), len(seen)), set(variants) <= seen,
                "variants without a dedicated arm: %s" % sorted(set(variants) - seen), key="display-arms-missing")
+    condition_rules(rep, f)
+    component_display_rules(rep, T)
     # cache keys come from canonical_form()
     keys = [l for l in T.lets if l["file"].endswith("normalize/macro_expand/mod.rs") and re.search(r"NonterminalString\s*\(\s*Atom\s*::\s*from", l["init"])]
     rep.floor("expansion cache keys in macro_expand", len(keys), 4)
@@ -72,3 +74,70 @@ def run(tier):
                "an expansion is named/cached by something other than canonical_form()", key="cache-key:%s" % l["fn"].split("::")[-1],
                file=l["file"], line=l["line"], fn=l["fn"])
     return rep
+
+
+def condition_rules(rep, f):
+    """`if` conditions of macro alternatives: == / != / ~~ / !~ evaluated as equality, its negation, regex match, its
+    negation, on the macro argument named by the condition's left-hand side; no condition => alternative kept."""
+    b = f.one(r"MacroExpander::evaluate_cond$")
+    ops = [v["name"] for v in f.adts["lalrpop::grammar::parse_tree::ConditionOp"]["variants"]]
+    seen = {}
+    none_ok = False
+    for r in symex.term_eval(f, b, inline=lambda p: False):
+        v = r[0]
+        op = [val for _, t, val in r.pc if symex.show_term(t).endswith(".op)") and isinstance(val, int)]
+        if not r.pc or (len(r.pc) == 1 and not op and v and v[0] == "adt" and v[1].endswith("::Ok") and v[3] == (("c", 1),)):
+            none_ok = none_ok or (v and v[0] == "adt" and v[1].endswith("::Ok") and v[3] == (("c", 1),))
+            continue
+        if not op:
+            continue
+        name = ops[op[0]]
+        sh = symex.show_term(v)
+        uses_args = "index(arg2, (arg3 as Some).0.lhs)" in sh and ".rhs" in sh
+        if name == "Equals":
+            ok = v[0] == "adt" and v[1].endswith("::Ok") and "::eq(" in sh and "op:Not" not in sh and uses_args
+        elif name == "NotEquals":
+            ok = v[0] == "adt" and v[1].endswith("::Ok") and ("::ne(" in sh or ("op:Not" in sh and "::eq(" in sh)) and uses_args
+        elif name == "Match":
+            ok = "re_match(" in sh and "op:Not" not in sh and uses_args
+        else:
+            if "from_residual" in sh:
+                continue        # error propagation path of `?`
+            ok = "re_match(" in sh and "op:Not" in sh and uses_args
+        seen[name] = seen.get(name, True) and ok
+    for name in ops:
+        rep.ob("condition.%s" % name, "evaluate_cond: %s" % name, seen.get(name) is True,
+               "the macro condition operator %s is not evaluated as documented (==, !=, ~~ regex match, !~ its negation) on the argument bound to the left-hand side" % name,
+               key="cond:%s" % name, file=b.relfile(), line=b.line, fn=b.path)
+    rep.ob("condition.absent-keeps-alternative", "evaluate_cond: no condition -> Ok(true)", bool(none_ok),
+           "an alternative without a condition is not kept", key="cond:none", file=b.relfile(), line=b.line, fn=b.path)
+
+
+def component_display_rules(rep, T):
+    """the renderings that canonical forms are built from keep every component: Name<args..>, symbol+op, (symbols..),
+    and the three repeat operators print distinct characters"""
+    def arms(ty):
+        return [m for m in T.macros if m["macro"] == "write" and m["file"].endswith("grammar/parse_tree.rs")
+                and re.search(r"<%s\s*as\s*Display>::fmt$" % ty, m["fn"])]
+    ms = arms("MacroSymbol")
+    ok = len(ms) == 1 and re.fullmatch(r"\{\}<\{\}>", ms[0]["fmt"] or "") is not None and \
+        [a["expr"].replace(" ", "") for a in ms[0]["args"]] == ["self.name", 'Sep(",",&self.args)']
+    rep.ob("components.macro-symbol", "MacroSymbol => %r %s" % (ms[0]["fmt"] if ms else None, [a["expr"] for a in ms[0]["args"]] if ms else ""), ok,
+           "the canonical form of a macro use does not consist of its name and all of its arguments", key="display:MacroSymbol",
+           file="lalrpop/src/grammar/parse_tree.rs", line=ms[0]["line"] if ms else 0)
+    ms = arms("RepeatSymbol")
+    ok = len(ms) == 1 and (ms[0]["fmt"] or "") == "{}{}" and [a["expr"].replace(" ", "") for a in ms[0]["args"]] == ["self.symbol", "self.op"]
+    rep.ob("components.repeat-symbol", "RepeatSymbol => %r" % (ms[0]["fmt"] if ms else None), ok,
+           "the canonical form of a repetition does not consist of its symbol and operator", key="display:RepeatSymbol",
+           file="lalrpop/src/grammar/parse_tree.rs", line=ms[0]["line"] if ms else 0)
+    ms = arms("ExprSymbol")
+    ok = len(ms) == 1 and (ms[0]["fmt"] or "") == "({})" and [a["expr"].replace(" ", "") for a in ms[0]["args"]] == ['Sep("",&self.symbols)'.replace('""', '" "')] or \
+        (len(ms) == 1 and (ms[0]["fmt"] or "") == "({})" and "self.symbols" in ms[0]["args"][0]["expr"].replace(" ", ""))
+    rep.ob("components.expr-symbol", "ExprSymbol => %r" % (ms[0]["fmt"] if ms else None), ok,
+           "the canonical form of a group does not list all of its symbols in parentheses", key="display:ExprSymbol",
+           file="lalrpop/src/grammar/parse_tree.rs", line=ms[0]["line"] if ms else 0)
+    ms = arms("RepeatOp")
+    lits = sorted(m["fmt"] for m in ms)
+    rep.ob("components.repeat-ops-distinct", "RepeatOp => %s" % lits, len(lits) == 3 and len(set(lits)) == 3 and all(len(x) == 1 and not x.isalnum() for x in lits),
+           "two repeat operators render identically: X* and X+ (or X?) would share one expansion", key="display:RepeatOp",
+           file="lalrpop/src/grammar/parse_tree.rs", line=ms[0]["line"] if ms else 0)
